@@ -29,6 +29,7 @@ on `Asynkit.Gen.PQ` break (set PQ2LEAN_STRICT=1 to get the exception itself).
 """
 import ast
 import os
+import re
 import sys
 from pathlib import Path
 
@@ -528,6 +529,20 @@ class Fn:
         raise Unsupported(f"operator {type(op).__name__}")
 
     def compare(self, op, a, b):
+        if isinstance(op, (ast.Is, ast.IsNot)):
+            # `x is None` / `x is not None`: decided by the type the value has on this path (a helper
+            # that returns None on one path and a value on another is inlined path by path)
+            if "none" not in (a.ty, b.ty):
+                raise Unsupported("`is` between values other than None")
+            other = b if a.ty == "none" else a
+            if other.ty == "none":
+                yes = True
+            elif isinstance(other.ty, tuple) and other.ty[0] == "opt":
+                t = f"{atom(other.lean)}.isNone" if isinstance(op, ast.Is) else f"{atom(other.lean)}.isSome"
+                return Val(t, "bool")
+            else:
+                yes = False
+            return Val("true" if yes == isinstance(op, ast.Is) else "false", "bool")
         if a.ty == "prio" and b.ty == "prio":
             if isinstance(op, ast.Lt):
                 return Val(f"(plt {atom(a.lean)} {atom(b.lean)})", "bool")
@@ -894,10 +909,15 @@ class Fn:
             env.vars.pop(name, None)
             return Let(nm, lean_ty(v.ty), v.lean, k(env))
         if v.ty == "none":
-            raise Unsupported(f"{name} = None")
+            env.lists.pop(name, None)
+            env.vars[name] = Val("none", "none")       # only `is None` tests can read it
+            return k(env)
         env.lists.pop(name, None)
         if v.ty == "entry":
             env.vars[name] = v.clone()
+            return k(env)
+        if re.fullmatch(r"[A-Za-z_][A-Za-z0-9_']*", v.lean) and v.lean not in ("true", "false"):
+            env.vars[name] = Val(v.lean, v.ty)          # a second Python name for the same Lean value
             return k(env)
         nm = self.fresh(name + "_")
         env.vars[name] = Val(nm, v.ty)
@@ -1077,6 +1097,9 @@ class Fn:
             return self.stmt(ast.copy_location(ast.Assign(targets=[s.target], value=load), s), env, ctx)
         if isinstance(s, ast.If):
             def ki(c, env2):
+                if c.ty == "bool" and c.lean in ("true", "false"):
+                    # decided at translation time (`x is None` on this path): only that branch exists
+                    return self.blk(s.body if c.lean == "true" else s.orelse, env2.copy(), ctx)
                 a = self.blk(s.body, env2.copy(), ctx)
                 b = self.blk(s.orelse, env2.copy(), ctx)
                 return If(self.truth(c), a, b)
